@@ -11,6 +11,18 @@ CHECKS = {
  'C02': ('bounded-exhaustive enumeration + proptest generators against an independent pushdown recogniser of the event grammar',
          'Same input spaces as C01; pull and push event streams on two back-ends must be a prefix (or, without error, a whole sentence) of the YAML event grammar with the anchor/alias id rules.',
          'Grammar only; the recogniser (harness/src/oracle/grammar.rs) is trusted.', '5 C02'),
+ 'C10': ('differential testing across six Input back-ends over bounded-exhaustive and proptest-generated inputs',
+         'C01 spaces + exhaustive scope with CR / multi-byte characters + block scalars under indentation 0..140: (event, span) lists and first error identical on StrInput, BufferedInput and TestInput<8,16,64,128>.',
+         'TestInput replicates BufferedInput semantics with another capacity (>= 8); differential only (paired with the model-based checks).', '5 C10'),
+ 'C12': ('bounded-exhaustive + proptest inputs against an independent line/column counter and source-lexing span oracles',
+         'Every span endpoint and error marker is recomputed from the input characters (LF, CR, CRLF); nesting/order invariants; one-line plain and quoted scalar extents; Display format; MarkedYaml(Owned) node spans vs creating events.',
+         'Synthesised null scalars and positions at end of input are exempt as stated in DESIGN.md §7 I5/I6; block scalar extent not asserted.', '5 C12'),
+ 'C14': ('metamorphic relation (LF -> CRLF / CR) over bounded-exhaustive and proptest inputs',
+         'Every CR-free generated input is re-parsed with CRLF and with lone CR: same events, scalar values, line/col, outcome and error text.',
+         'Differential against the implementation itself by design; error index not compared (I14).', '5 C14'),
+ 'C17': ('model-based call-history testing (peek/next interpreter) with exhaustive histories on small streams + differential pull vs push',
+         'Cursor model over the plain-iteration event list; all 3^n peek histories for streams <= 8 events and all <= 3-position histories for 9..12 events on small inputs and the corpus, sampled histories elsewhere; load(multi) and repeated load(single) must replay the same (event, span, error) story.',
+         'Histories stop at the first error (I4).', '5 C17'),
 }
 def main():
     checks = []
